@@ -25,6 +25,8 @@ class VLoop(asyncio.AbstractEventLoop):
         self.exc_contexts: list = []
         self.n_steps = 0
         self.n_jumps = 0
+        self._steps_at_jump = 0
+        self.max_steps_per_instant = 60000
         self.max_steps = max_steps
         self.horizon = horizon
         self.step_hook = step_hook
@@ -118,6 +120,7 @@ class VLoop(asyncio.AbstractEventLoop):
                 raise Horizon('virtual horizon reached')
             self._now = when
             self.n_jumps += 1
+            self._steps_at_jump = self.n_steps
         now = self._now
         while timers:
             h = timers[0]
@@ -137,6 +140,9 @@ class VLoop(asyncio.AbstractEventLoop):
             self.n_steps += 1
             if self.n_steps > self.max_steps:
                 raise Horizon('step budget exceeded')
+            if self.n_steps - self._steps_at_jump > self.max_steps_per_instant:
+                # something reschedules itself for ever without any time passing (zero-CPU-time model: the clock can never advance)
+                raise Horizon('livelock: more than %d callbacks at one virtual instant' % self.max_steps_per_instant)
             if self.step_hook is not None:
                 self.step_hook(self)
             h._run()
